@@ -58,6 +58,16 @@ def run(ctx):
         for d in tmp:
             shutil.rmtree(d, ignore_errors=True)
     ctx.obligation("forced hand-over orders (identity, reverse, random, unforced) through the verif hook in analyzeFunc: identical diagnostics and fact bytes (%d runs, %d functions)" % (nruns, nfun), nruns > 0 and not bad)
+    # contract inference runs one goroutine per function as well: a package of branch-heavy contract candidates against
+    # the same functions one per package ("analysed one at a time")
+    hd = ctx.scratch()
+    nheavy = 10
+    ds.gen_heavy_contract_module(hd, nfun=nheavy)
+    hbad = ds.together_equals_alone(hd, nheavy, runs=2 if ctx.tier == "quick" else 6)
+    shutil.rmtree(hd, ignore_errors=True)
+    ctx.obligation("contract inference of %d branch-heavy functions analysed together (concurrently) == each analysed alone in a package of its own: same contracts, same diagnostics" % nheavy, not hbad)
+    for b in hbad[:2]:
+        ctx.violation("together", "C16 fails on the real tool: %s\nreplay: checks/det_suite.py gen_heavy_contract_module + bin/harness analyze -dir <module> -triggers\n" % b)
     race_note = "race detector not run"
     if True:
         rc, out = common.sh("CGO_ENABLED=1 go build -race -tags verif -o %s/harness_race ./cmd/harness" % common.BIN, cwd=common.GO, timeout=1800)
